@@ -107,6 +107,13 @@ impl Model {
         self.map.get(&key_of(line))
     }
 
+    /// an intra-line edit changes a line's key: deletion-neighbour marks follow it
+    pub fn carry_neighbor_marks(&mut self, old_line: &str, new_line: &str) {
+        if let Some(d) = self.del_neighbors.get(&key_of(old_line)).cloned() {
+            self.del_neighbors.entry(key_of(new_line)).or_default().extend(d);
+        }
+    }
+
     pub fn allow_also(&mut self, line: &str, who: Actor) {
         if let Some(e) = self.map.get_mut(&key_of(line)) {
             e.also_ok.insert(who);
@@ -362,6 +369,7 @@ pub fn apply_edit(fs: &mut FileState, model: &mut Model, who: Actor, edit: &Edit
                         }
                     };
                     model.wrote(&new, who, true);
+                    model.carry_neighbor_marks(&old, &new);
                     fs.lines[i] = new;
                 }
             }
@@ -410,6 +418,7 @@ pub fn apply_edit(fs: &mut FileState, model: &mut Model, who: Actor, edit: &Edit
                         e.last_was_pure_deletion = true;
                         e.prev_chain = prev;
                     }
+                    model.carry_neighbor_marks(&old, &new);
                     fs.lines[i] = new;
                 } else {
                     kind = "noop";
